@@ -30,7 +30,7 @@ ASSUMPTIONS = [
     "first, loops over one-shot `tick(domain).sample(every signal)` waits; it must be resumed exactly at every active edge of the "
     "domain (clk_hit, reset level, values from just before the edge) and, for an asynchronous-reset domain, when the reset rises "
     "(no clk_hit, reset active, values from just before the reset took effect).",
-    "A third testbench, added after the hopping one, loops over : it must report 'n ticks seen' or "
+    "A third testbench, added after the hopping one, loops over tick(domain).repeat(n): it must report 'n ticks seen' or "
     "DomainReset exactly as n one-shot tick waits would (a reset asserted by the earlier testbench in the instant of a clock edge "
     "is seen at the next tick as an active reset).",
     "Trigger combinations (edge|delay, changed|delay): the wake-up instant is the earlier of the two; the result reports which "
